@@ -64,6 +64,10 @@ def malformed(rng):
             if b: b[rng.randrange(min(len(b), 200))] = rng.choice([0, 0x0d, 0x0a, 0x20, 0x3a, 0xff, 0x3f, 0x80, 0xc3, rng.randrange(256)])
     elif k < 0.6: b = b.replace(b'HTTP/1.1', rng.choice([b'HTTP/1.0', b'HTTP/2', b'http/1.1', b'HTTP/1.1 ']), 1)
     elif k < 0.7: b = b.replace(b': ', rng.choice([b':', b' : ', b':  ']), 1)
+    elif k < 0.78:          # a header line whose name is not a token: empty, with a blank, folded, holding a line end, `Name:value` in front of a good line, not ASCII
+        bad = rng.choice([b': v', b'A B: v', b' folded: v', b'\tX: v', b'Foo\r\nX-A: 1', b'Host:example.com\r\nX-A: 1', b'Foo\r\nContent-Length: 3', b'X-Caf\xc3\xa9: au lait', b'(x): v', b'X"Y: v', b'X\x00: v',
+                          b'X-A\r\n: v', b'\r: v', b'a@b: v', b'x/y: 1'])
+        b = bytearray(b'POST /x HTTP/1.1\r\nHost: h\r\n' + bad + b'\r\nContent-Length: 3\r\n\r\nabc')
     elif k < 0.85:
         cl = rng.choice([b'abc', b'', b'-1', b'99999999999999999999999', b'4294967296', b'4294967295', b'+3', b' 3', b'3 ', b'18446744073709551616', b'3, 3', b'0x3'])
         b = bytearray(b'POST /x HTTP/1.1\r\n' + recase(rng, 'Content-Length').encode() + b': ' + cl + b'\r\n\r\nabc')
@@ -120,7 +124,7 @@ def generate(rng, tier):
 
 # ---------------------------------------------------------------------------------------------- spec
 HEAD_RE = re.compile(rb'\A(GET|PUT|POST|PATCH|DELETE|HEAD|OPTIONS) (/[^ ?]*)(?:\?([^ ]*))? HTTP/1\.1\r\n', re.S)
-LINE_RE = re.compile(rb'([^:]*): ([^\r]*)\r\n', re.S)
+LINE_RE = re.compile(rb"([!#$%&'*+\-.^_`|~0-9A-Za-z]+): ([^\r]*)\r\n", re.S)          # field-name = token (RFC 9110 5.1)
 _STD = None
 
 
